@@ -1003,3 +1003,25 @@ Proof.
   - rewrite al_set_other by congruence. apply al_set_same.
   - apply al_set_same.
 Qed.
+
+(* ------------------------------------------------------------------ the size bound needs no proviso *)
+(* whatever the clock strings are (a burst within the second of creation or of the last rotation, coinciding
+   backup names): when the counted size is the size of the current file, it still is after a write, and the file
+   then is within the limit or consists of the record just written *)
+Lemma write_size_bound c s r now cur d :
+  c_kind c = SizeLimit -> 0 < c_max_size c ->
+  s_fp s = true -> fs_get (c_file c) (s_fs s) = Some (cur, d) -> s_size s = bytes cur ->
+  let s' := write c s r now in
+  exists cur' d', fs_get (c_file c) (s_fs s') = Some (cur', d') /\ s_size s' = bytes cur' /\ s_fp s' = true /\
+                  (bytes cur' <= c_max_size c \/ cur' = [r]).
+Proof.
+  intros K M Hfp Hcur Hsz s'. subst s'. unfold write, shall_rotate. rewrite K. unfold size_shall_rotate.
+  destruct ((0 <? c_max_size c) && (c_max_size c <? s_size s + rlen r)) eqn:SR.
+  - unfold rotate.
+    destruct (fs_exists (c_file c) (s_fs s) && (0 <? Z.of_nat (List.length (s_backup s)))); cbn [s_fp s_fs s_size];
+      unfold fs_append; rewrite get_put_same; exists [r], 0%nat; rewrite get_put_same;
+      (split; [reflexivity|]; split; [unfold bytes; simpl; lia|]; split; [reflexivity | right; reflexivity]).
+  - rewrite Hfp. cbn [s_fs s_size s_fp]. unfold fs_append. rewrite Hcur. exists (cur ++ [r]), d. rewrite get_put_same.
+    split; [reflexivity|]. split; [rewrite bytes_app, Hsz; unfold bytes; simpl; lia|]. split; [reflexivity|].
+    left. rewrite bytes_app. unfold bytes at 2. simpl. rewrite <- Hsz. lia.
+Qed.
